@@ -16,6 +16,8 @@ func VerifC18Env() {
 	verif_stub("time.Now", func() time.Time { return time.Unix(0, 1) })
 	verif_stub("math/rand.NewSource", func(seed int64) rand.Source { return nil })
 	verif_stub("math/rand.New", func(src rand.Source) *rand.Rand { return &rand.Rand{} })
+	// any other way of drawing from the generator: every value in range
+	verif_stub("(*math/rand.Rand).Intn", func(r *rand.Rand, n int) int { return verif_choose("rand_intn", n) })
 	verif_stub("(*math/rand.Rand).Shuffle", func(r *rand.Rand, n int, swap func(i, j int)) {})
 }
 
